@@ -3,7 +3,7 @@
 import json, os, shutil, sys
 pid, name, needs = sys.argv[1], sys.argv[2], sys.argv[3]
 src = sys.argv[4] if len(sys.argv) > 4 else f"/tmp/seed-{pid}"
-dst = f"/verif/seeded/{pid}/{name}" if name != "-" else f"/verif/seeded/{pid}"
+dst = f"/verif/seeded/{pid}-{name}" if name != "-" else f"/verif/seeded/{pid}"
 os.makedirs(dst, exist_ok=True)
 for f in ("patch.diff", "demo.py", "notes.md"):
     shutil.copy(os.path.join(src, f), os.path.join(dst, f))
